@@ -1976,7 +1976,7 @@ def key_split(s):
     if type(s) is bytes:
         return key_split(s.decode())
     if type(s) is tuple:
-        return key_split(s[0])
+        return key_split(s[0]) if s else "Other"
     try:
         words = s.split("-")
         if not words[0][0].isalpha():
